@@ -12,6 +12,7 @@ def parse_field(data : deque, container, nlines, nelem):
 def import_medit(path):
     obj = RawMeshData()
     data = deque()
+    dim = 3
     with open(path, 'r' ) as meditf:
         data = deque([x.strip() for x in meditf.readlines() if x.strip()]) # ignore blank lines
                 
@@ -22,11 +23,14 @@ def import_medit(path):
 
         if line=="End": break # end of file
 
+        elif line=="Dimension":
+            dim = int(data.popleft())
+
         elif line=="Vertices":
             nv = int(data.popleft())
             for _ in range(nv):
                 line = data.popleft().split()
-                vertex = [float(u.strip()) for u in line[:3]]
+                vertex = [float(u.strip()) for u in line[:dim]] + [0.]*(3-dim)
                 obj.vertices.append(vertex)
 
         elif line=="Edges":
